@@ -75,10 +75,22 @@ func (x *xts) CryptBlocks(dst, src []byte) {
 			encryptSm4Xts(&x.b.enc[0], &x.tweak, dst, src)
 		}
 	} else {
-		if x.isGB {
-			decryptSm4XtsGB(&x.b.dec[0], &x.tweak, dst, src)
-		} else {
-			decryptSm4Xts(&x.b.dec[0], &x.tweak, dst, src)
-		}	
+		// The bulk loops of the assembly consume every whole block they can, but with a partial
+		// final block the last whole block belongs to the ciphertext stealing step (it needs the
+		// later tweak). Decrypt the whole blocks before it first, then the final 16+r bytes.
+		if r := len(src) % BlockSize; r != 0 && len(src) > 2*BlockSize {
+			head := len(src) - BlockSize - r
+			x.decrypt(dst[:head], src[:head])
+			dst, src = dst[head:], src[head:]
+		}
+		x.decrypt(dst, src)
+	}
+}
+
+func (x *xts) decrypt(dst, src []byte) {
+	if x.isGB {
+		decryptSm4XtsGB(&x.b.dec[0], &x.tweak, dst, src)
+	} else {
+		decryptSm4Xts(&x.b.dec[0], &x.tweak, dst, src)
 	}
 }
